@@ -210,6 +210,8 @@ CLASS_HOME = {
     "IWork": "iwork.py", "Cell": "cell.py", "Table": "document.py", "Sheet": "document.py", "Document": "document.py", "Style": "cell.py",
     "TableFormulas": "formula.py", "Formula": "formula.py", "CellRange": "xrefs.py", "ScopedNameRefCache": "xrefs.py", "Cacheable": "numbers_cache.py",
     "IWAFile": "iwafile.py", "IWACompressedChunk": "iwafile.py", "IWAArchiveSegment": "iwafile.py",
+    "Tokenizer": "tokenizer.py", "Token": "tokenizer.py", "Converter": "_csv2numbers.py", "Transformer": "_csv2numbers.py",
+    "MergeTransformer": "_csv2numbers.py", "NegTransformer": "_csv2numbers.py", "PosTransformer": "_csv2numbers.py", "LookupTransformer": "_csv2numbers.py",
 }
 CELL_SUBCLASSES = {"NumberCell", "TextCell", "RichTextCell", "BulletedTextCell", "EmptyCell", "BoolCell", "DateCell", "DurationCell", "ErrorCell", "MergedCell"}
 
